@@ -239,7 +239,10 @@ def _parse_config_value(val: Any, field_type: Any, path: List[str]) -> Any:
         if isinstance(val, dict):
             return _parse_config_struct(val, field_type, path)
         elif dataclasses.is_dataclass(val) and not isinstance(val, type):
-            return _parse_config_struct(dataclasses.asdict(val), field_type, path)
+            # Only fields with init=True are configuration items (see _parse_config_struct); nested
+            # dataclass instances are handled when their own field is parsed.
+            init_items = {f.name: getattr(val, f.name) for f in dataclasses.fields(val) if f.init}
+            return _parse_config_struct(init_items, field_type, path)
 
     pathstr = ".".join(path)
     raise QMI_ConfigurationException(
